@@ -24,7 +24,7 @@ def gen_operand(rng, directive, labels, allow_dollar=True):
 def gen_program(rng, maxstmts):
     prog = []
     labels = []
-    org = rng.choice([None, 0, 0x100, 0x7c00, 0xc200])
+    org = rng.choice([None, 0, 0x100, 0x7c00, 0xc200, 0x10000, 0x280000, 0x12344])
     if org is not None:
         prog.append(("mn", "ORG", [A.hexn(org)]))
     n = rng.randrange(1, maxstmts)
@@ -65,6 +65,10 @@ def skeleton():
             out.append(([("mn", d, [A.hexn(v)])], "hex"))
         out.append(([("label", "a"), ("mn", d, [A.ident("a"), A.ident("$")]), ("label", "b"), ("mn", d, [A.ident("b"), A.ident("$"), A.ident("a")])], "label"))
         out.append(([("mn", "ORG", [A.hexn(0x7c00)]), ("op", "NOP") if False else ("mn", "DB", [A.num(0)]), ("label", "a"), ("mn", d, [A.ident("a"), A.ident("$")])], "label-org"))
+    for d in ("DB", "DW", "DD"):
+        for org in (0xfffe, 0x10000, 0x12345, 0x280000, 0x7fff0000):
+            out.append(([("mn", "ORG", [A.hexn(org)]), ("mn", "DB", [A.num(1), A.num(2), A.num(3)]), ("label", "a"), ("mn", d, [A.ident("a"), A.ident("$"), A.num(0x1234)]), ("label", "b"), ("mn", d, [A.ident("b")])], "label-high-org"))
+        out.append(([("mn", "DB", [A.num(7)]), ("mn", "RESB", [A.hexn(0x10000)]), ("label", "far"), ("mn", d, [A.ident("far"), A.ident("$")])], "label-after-64k"))
     for s in [b"", b"a", b"hello", b"a,b", b"x;y", b"#z", b" sp ace ", b"it's", b"0x41", b"DB 1,2"]:
         out.append(([("mn", "DB", [A.string(s)])], "str"))
         out.append(([("mn", "DB", [A.num(1), A.string(s), A.num(2)])], "str"))
